@@ -186,7 +186,7 @@ func (a *fnAnalysis) gname(o types.Object) string {
 	if o.Pkg() == a.core.pkg {
 		return o.Name()
 	}
-	return o.Pkg().Name() + "." + o.Name()
+	return pkgShort(o.Pkg()) + "." + o.Name()
 }
 
 func (a *fnAnalysis) get(m map[types.Object]rset, o types.Object) rset {
@@ -367,9 +367,24 @@ func funcName(core *types.Package, f *types.Func) string {
 		}
 	}
 	if f.Pkg() != nil && f.Pkg() != core {
-		name = f.Pkg().Name() + "." + name
+		name = pkgShort(f.Pkg()) + "." + name
 	}
 	return name
+}
+
+// pkgShort names a sub-package by its directory (x2j and x2j-wrapper both declare `package x2j`).
+func pkgShort(p *types.Package) string {
+	path := p.Path()
+	if i := strings.LastIndex(path, "/"); i >= 0 {
+		path = path[i+1:]
+	}
+	if path == "x2j-wrapper" {
+		return "x2jw"
+	}
+	if path == "v2" || path == "mxj" {
+		return "mxj"
+	}
+	return path
 }
 
 func extName(f *types.Func) string {
@@ -890,7 +905,7 @@ func (a *fnAnalysis) stmt(s ast.Stmt) {
 
 func analyseFunc(p, core *pkgInfo, pkgs map[*types.Package]*pkgInfo, fn *ast.FuncDecl, rets map[string][2]rset) *finfo {
 	obj := p.info.Defs[fn.Name].(*types.Func)
-	fi := &finfo{name: funcName(core.pkg, obj), pkg: p.name, exported: fn.Name.IsExported(), greads: map[string]bool{}, gwrites: map[string]bool{},
+	fi := &finfo{name: funcName(core.pkg, obj), pkg: pkgShort(p.pkg), exported: fn.Name.IsExported(), greads: map[string]bool{}, gwrites: map[string]bool{},
 		writes: rset{}, retT: rset{}, retD: rset{}, ext: map[string]bool{}, pos: strings.TrimPrefix(p.fset.Position(fn.Pos()).String(), core.dir+"/")}
 	a := &fnAnalysis{p: p, core: core, pkgs: pkgs, fi: fi, top: map[types.Object]rset{}, deep: map[types.Object]rset{}, pidx: map[types.Object]int{}, rets: rets}
 	if fn.Type.Results != nil {
